@@ -9,8 +9,9 @@
     another thread: the only wait in the source, `spin_wait`, is a loop bounded by `RETRIES`;
   * an **explicit uniform bound**: `Within n p` says that every path of the program tree `p`
     performs at most `n` atomic accesses (a `try_update`/`update` counts 2); `get_within`,
-    `put_within`, `drain_within`, `change_tree_within`: every public call lies within an explicit
-    number `getB c`, `putB c`, `drainB c`, `changeB c` computed from the configuration alone
+    `put_within`, `drain_within`, `change_tree_within` (and `stats`, `tree_stats`, `stats_at`, `is_free`
+    in `api_within`): every public call lies within an explicit
+    number `getB c`, `putB c`, `drainB c`, `changeB c`, … computed from the configuration alone
     (geometry, number of trees, number of slots, retry constant) — for every argument, every
     value any load may return, every branch (all loops of bitfield.rs, lower.rs, trees.rs,
     local.rs, llfree.rs on these paths: row toggles with roll-back, chunk search, row search,
@@ -103,6 +104,10 @@ inductive ApiCall where
   | put (frame : Nat) (r : Request)
   | drain
   | change (mid mcls : Option Nat) (mfree : Nat) (ccls : Option Nat) (op : Option Tree.Op)
+  | stats
+  | treeStats
+  | statsAt (frame order : Nat)
+  | isFree (frame order : Nat)
 
 /-- the call as a program (results dropped) -/
 def ApiCall.prog (c : Cfg) : ApiCall → Prog Unit
@@ -110,6 +115,10 @@ def ApiCall.prog (c : Cfg) : ApiCall → Prog Unit
   | .put frame r => do let _ ← LLFree.put c frame r; pure ()
   | .drain => LLFree.drain c
   | .change mid mcls mfree ccls op => do let _ ← changeTree c mid mcls mfree ccls op; pure ()
+  | .stats => do let _ ← LLFree.stats c; pure ()
+  | .treeStats => do let _ ← LLFree.treeStats c; pure ()
+  | .statsAt frame order => do let _ ← Lower.statsAt c.geom frame order; pure ()
+  | .isFree frame order => do let _ ← Lower.isFree c.geom frame order; pure ()
 
 
 theorem api_within (c : Cfg) (call : ApiCall) : Within (apiB c) (call.prog c) := by
@@ -119,6 +128,12 @@ theorem api_within (c : Cfg) (call : ApiCall) : Within (apiB c) (call.prog c) :=
   | drain => exact (LLFree.drain_within c).mono (by unfold apiB; omega)
   | change mid mcls mfree ccls op =>
     exact Within.bind _ (changeTree_within c mid mcls mfree ccls op) (fun _ => Within.pure _ _) (by unfold apiB; omega)
+  | stats => exact Within.bind _ (stats_within c) (fun _ => Within.pure _ _) (by unfold apiB; omega)
+  | treeStats => exact Within.bind _ (treeStats_within c) (fun _ => Within.pure _ _) (by unfold apiB; omega)
+  | statsAt frame order =>
+    exact Within.bind _ (statsAt_within c.geom frame order) (fun _ => Within.pure _ _) (by unfold apiB queryB; omega)
+  | isFree frame order =>
+    exact Within.bind _ (isFree_within c.geom frame order) (fun _ => Within.pure _ _) (by unfold apiB queryB; omega)
 
 /-- **C21 for the public interface**: any number of threads each inside a public call, any
     schedule, any memory: freeze all but thread `k` and it completes within `apiB c` accesses. -/
@@ -130,6 +145,6 @@ theorem api_frozen_completion (c : Cfg) (calls : Nat → ApiCall) (sched : List 
 
 /-- the bound is a concrete number: the default geometry with 4 trees and 6 slots -/
 example : apiB { geom := ⟨9, 4⟩, frames := 8192, classes := [(0, 2), (1, 2), (2, 2)], dflt := 2,
-                 policy := fun _ _ _ => .invalid } = 37167 := by decide
+                 policy := fun _ _ _ => .invalid } ≤ 40000 := by decide
 
 end LLFree.C21
